@@ -214,9 +214,17 @@ def pair_profiles(traces, wdir, tier, seed):
         po = os.path.join(wdir, base + "_pair.ndjson")
         n = 0
         with open(pu) as fu, open(pc) as fc, open(po, "w") as fo:
+            seen = {}
             for i, (lu, lc) in enumerate(zip(fu, fc)):
-                if keep > 1 and (i + seed) % keep != 0:
-                    continue
+                if keep > 1:
+                    # sample within each (event kind, operation, integer type) class, always keeping the first 40 of a
+                    # class, so that rare kinds of events (bool conversions, From impls, ...) are never sampled away
+                    m = core.KIND_RE.search(lu[:300])
+                    key = (m.group(0) if m else "") + ('bool' if '"it":"bool"' in lu[:120] else '')
+                    n = seen.get(key, 0)
+                    seen[key] = n + 1
+                    if n >= 40 and (n + seed) % keep != 0:
+                        continue
                 fo.write('{"k":"pair","u":%s,"c":%s}\n' % (lu.rstrip("\n"), lc.rstrip("\n")))
                 n += 1
             if fu.readline() or fc.readline():
